@@ -84,7 +84,7 @@ theorem stdLoop_items (n : Nat) : ∀ (is : List Item) (fuel : Nat) (s : St) (o 
         (fun d hd => (renderItems_head is hrest d hd).1)
       have hlen : (renderItems is).length < fuel' := by
         have : (renderItems (i :: is)).length = i.lx.text.length + i.ws.length + (renderItems is).length := by
-          simp [renderItems]
+          simp [renderItems, Nat.add_assoc]
         have h1 : 1 ≤ i.lx.text.length := by simp [htext]
         omega
       rw [hrender]
